@@ -759,7 +759,35 @@ def _rpe_core(ctx, r):
            f"(receivers {[fmt(e.data.get('recv')) for e in reds]}) — "
            f"expected the same [0] + delta_ids for both, after process_data",
            key="C02.7:rpe:reduce",
-           evidence=not any(opaque(x, (metric,)) for x in ids if x is not None))
+           evidence=_reduce_evidence(ids, metric, shape_ok, both, reds, pd))
+
+
+def _reduce_evidence(ids, metric, shape_ok, both, reds, pd) -> bool:
+    """what makes a reduction that is not `[0] + delta_ids` a deviation one
+    can point at (ids computed in another way — from the id pairs, by a
+    helper — may be the same list: no evidence)"""
+    if shape_ok:
+        return True        # one trajectory not reduced / reduced too early
+    DI = tm.attr(metric, "delta_ids")
+    if len(ids) != 1:
+        # different id lists for the two trajectories, each read completely
+        return not any(opaque(x, (metric,)) for x in ids if x is not None)
+    one = Interp.unname(list(ids)[0])
+    if one is None:
+        return False
+    if one is DI:
+        return True        # the first pose is not kept
+    for x in one.walk():
+        if is_call_to(x, "builtins.sorted", "builtins.reversed",
+                      "builtins.set", "numpy.sort", "numpy.unique",
+                      "numpy.flip") and any(y is DI for y in x.walk()):
+            return True    # reordered / de-duplicated: no longer index-wise
+        if x.op == "sub" and x.args[0] is DI and x.args[1].op == "slice":
+            return True    # a part of the ids
+    if one.op == "binop" and one.args[0] == "Add" and one.args[2] is DI and \
+            one.args[1].op == "list":
+        return True        # another head than [0]
+    return False
 
 
 def _delta_unit(ctx):
